@@ -125,7 +125,7 @@ def applyMove (P : Fn Int Int) (p : S) (mv : String) : List (S × String) :=
 
 def check (P : Fn Int Int) (p0 : S) (moves obs : List String) (pre : Bool := false) : String := Id.run do
   -- `pre`: the cancel happens before the goroutine takes its first step (the script's first move, `x`, repeats it)
-  let start := if pre then (envNext P p0 .cancel).map (·.1) else [p0]
+  let start := if pre then Sources.preStart P p0 else [p0]
   let mut states := rest P start
   match obs with
   | [] => return "MISMATCH no observations"
